@@ -295,8 +295,9 @@ func c17RunDoc(c *Ctx, k c17Case) {
 				if !t.Value.String() {
 					fail("RawValue.String", "true", "false")
 				}
-				if got := string(t.Value.Unquote()); got != s {
-					fail("RawValue.Unquote", s, got)
+				var got string
+				if p := protect(func() { got = string(t.Value.Unquote()) }); p != "" || got != s {
+					fail("RawValue.Unquote", s, got+p)
 				}
 			case "n":
 				if kind.Class() != json.Num {
@@ -429,7 +430,8 @@ func c17Literal(c *Ctx, k strCase) {
 		want += dec[i]
 	}
 	for wi, doc := range []string{lit, "[" + lit + "]", "{" + lit + ":" + lit + "}", `{"k":[` + lit + `,1]}`} {
-		tok := json.NewTokenizer([]byte(doc))
+		buf := []byte(doc)
+		tok := json.NewTokenizer(buf)
 		for round := 0; round < 2; round++ {
 			n := 0
 			c.Eval(1)
@@ -441,16 +443,23 @@ func c17Literal(c *Ctx, k strCase) {
 				return ok
 			}
 			for next() {
-				if tok.Kind().Class() != json.String || string(tok.Value) == `"k"` {
-					continue
+				if tok.Kind().Class() != json.String || (wi == 3 && tok.IsKey) {
+					continue // (the member name of the fourth form is not the literal under test)
 				}
 				n++
-				if got := string(tok.String()); got != want {
-					c.Diverge("C17", "Tokenizer.String", fmt.Sprintf("%q", clipS(want)), fmt.Sprintf("%q (document form %d, round %d)", clipS(got), wi, round), "", k)
+				var got string
+				if p := protect(func() { got = string(tok.String()) }); p != "" || got != want {
+					c.Diverge("C17", "Tokenizer.String", fmt.Sprintf("%q", clipS(want)), fmt.Sprintf("%q %s (document form %d, round %d)", clipS(got), p, wi, round), "", k)
 					return
 				}
-				if got := string(json.RawValue(tok.Value).Unquote()); got != want {
-					c.Diverge("C17", "RawValue.Unquote", fmt.Sprintf("%q", clipS(want)), fmt.Sprintf("%q", clipS(got)), "", k)
+				// reading a token's meaning leaves the caller's document, and with it the token's Value, as they were
+				if string(buf) != doc {
+					c.Diverge("C17", "Tokenizer.String(the document afterwards)", fmt.Sprintf("%q", clipS(doc)), fmt.Sprintf("%q (document form %d, round %d)", clipS(string(buf)), wi, round), "", k)
+					return
+				}
+				// (a well-formed literal: Unquote panics on malformed ones only)
+				if p := protect(func() { got = string(json.RawValue(tok.Value).Unquote()) }); p != "" || got != want {
+					c.Diverge("C17", "RawValue.Unquote", fmt.Sprintf("%q", clipS(want)), fmt.Sprintf("%q %s", clipS(got), p), "", k)
 					return
 				}
 			}
@@ -458,7 +467,7 @@ func c17Literal(c *Ctx, k strCase) {
 				c.Diverge("C17", "Tokenizer(string tokens)", fmt.Sprintf("%d string token(s), no error", wantN), fmt.Sprintf("%d, err=%v", n, tok.Err), "", k)
 				return
 			}
-			tok.Reset([]byte(doc))
+			tok.Reset(buf)
 		}
 	}
 }
